@@ -116,4 +116,15 @@ theorem etodFinally_tags (p : EtodOwn × σ) : (etodFinally I p).1.tags = p.1.ta
   · exact etodStop_tags I _ _
   · rfl
 
+/-- what a `ThreadsafeForwardingResult` with `failfast` set on itself adds after a bad outcome: at most one `stop()` -/
+theorem mem_tfrStops (own : TfrOwn) (k : Kind) : ∀ x ∈ tfrStops own k, x = Call.stop := by
+  unfold tfrStops; split <;> simp
+
+theorem tfrStops_off (own : TfrOwn) (k : Kind) (h : own.tt.failfast = false ∨ k.passing = true) : tfrStops own k = [] := by
+  unfold tfrStops; rcases h with h | h <;> simp [h]
+
+theorem tfrStops_on (own : TfrOwn) (k : Kind) (h1 : own.tt.failfast = true) (h2 : k.passing = false) :
+    tfrStops own k = [Call.stop] := by
+  unfold tfrStops; simp [h1, h2]
+
 end TTV.Lemmas.ResEmit
